@@ -44,10 +44,10 @@ def defaultPort? (s : Str) : Option Nat := schemePorts.lookup s
 
 /-- `DEFAULT_ENCODE_SET = b' "#<>?`'` -/
 def defaultSet : List Nat := [32, 34, 35, 60, 62, 63, 96]
-/-- `PASSWORD_ENCODE_SET = DEFAULT | b'/@\\%'` -/
-def passwordSet : List Nat := [32, 34, 35, 60, 62, 63, 96, 47, 64, 92, 37]
+/-- `PASSWORD_ENCODE_SET = DEFAULT | b'/@\\%[]'` -/
+def passwordSet : List Nat := [32, 34, 35, 60, 62, 63, 96, 47, 64, 92, 37, 91, 93]
 /-- `USERNAME_ENCODE_SET = PASSWORD | b':'` -/
-def usernameSet : List Nat := [32, 34, 35, 60, 62, 63, 96, 47, 64, 92, 37, 58]
+def usernameSet : List Nat := [32, 34, 35, 60, 62, 63, 96, 47, 64, 92, 37, 91, 93, 58]
 /-- `QUERY_ENCODE_SET = b'"#<>`'` -/
 def querySet : List Nat := [34, 35, 60, 62, 96]
 /-- `FRAGMENT_ENCODE_SET = b' "<>`'` -/
